@@ -59,6 +59,8 @@ type Ctx struct {
 	Rule        string
 	Exhaustive  bool
 	nviol       int
+	nwritten    int
+	perSig      map[string]int
 	Extra       map[string]any
 }
 
@@ -98,9 +100,16 @@ func (c *Ctx) Count(key string) { c.Dist[key]++ }
 func (c *Ctx) Violate(v Violation) {
 	v.Property = c.Prop
 	c.nviol++
-	if c.nviol > 200 {
+	// at most 12 records per signature (a known finding hit a thousand times must not use up the room of a new
+	// violation found later in the run) and 600 in all
+	if c.perSig == nil {
+		c.perSig = map[string]int{}
+	}
+	c.perSig[v.Signature]++
+	if c.perSig[v.Signature] > 12 || c.nwritten >= 600 {
 		return
 	}
+	c.nwritten++
 	b, _ := json.Marshal(v)
 	c.direct.Write(b)
 	c.direct.WriteByte('\n')
